@@ -106,6 +106,7 @@ def rrsigValidityCheck (rrsig : Rrsig) (keyName : Name) (keyType : Nat) (records
   if records.any (fun r => r.cls != 1) then .wrongRrsig
   else if !(Name.eq rrsig.owner keyName && rrsig.input.typeCovered == keyType
       && decide (keyName.numLabels ≥ rrsig.input.numLabels)) then .wrongRrsig
+  else if !(serialLe rrsig.input.inception rrsig.input.expiration) then .expiredRrsig
   else if !(serialLe now rrsig.input.expiration && serialGe now rrsig.input.inception) then .expiredRrsig
   else if !(Name.eq rrsig.input.signer dnskey.owner && rrsig.input.algorithm == dnskey.algorithm
       && rrsig.input.keyTag == keyTag dnskey.rdata && dnskey.zoneKey) then .wrongDnskey
